@@ -261,7 +261,7 @@ def run(ctx):
                 ctx.violation(case, 'regression corpus %s: %s' % (os.path.basename(path), why))
     # boundary sweeps (deterministic, complete for the listed boundaries)
     bounds = [16, 256, 4096] if quick else [16, 256, 4096, 65536]
-    sweep = list(asmgen.boundary_sweep_programs(bounds))
+    sweep = list(asmgen.boundary_sweep_programs(bounds)) + list(asmgen.growth_chain_programs([5, 40, 70, 100, 140] if quick else [5, 40, 70, 100, 140, 300, 700, 1500]))
     import multiprocessing
     W = driver.NCPU
     chunks = [[(k, it) for k, it in sweep[i::W]] for i in range(W)]
